@@ -4,9 +4,11 @@ from harness import truth
 from harness import worlds
 
 PROP = "C12"
-LEAN_MODULE = "Ztr.Props.C12"
+LEAN_MODULE = "Ztr.Props.C12Whole"
+LEAN_DEPS = ["Ztr.Props.C12"]
 THEOREMS = ['Ztr.Result.C12_step', 'Ztr.Result.C12_counts', 'Ztr.Result.C12_tests_run', 'Ztr.Runner.C12_summary',
-            'Ztr.Runner.C12_summary_truth']
+            'Ztr.Runner.C12_summary_truth', 'Ztr.Runner.C12_process_counts', 'Ztr.Runner.C12_totals_truth',
+            'Ztr.Runner.C12_D4_witness', 'Ztr.Runner.C12_D5_witness']
 RULE = ("worlds with every outcome kind incl. several events from one test, failing subtests, unexpected successes, "
         "countTestCases() = 3 tests, layer setUp/tearDown failures and import errors; verbosity 0-3, --repeat, "
         "in-process / resumed / -j N. The 'Ran ..' lines, the 'Total:' line and the 'Tests with failures/errors' lists "
@@ -98,13 +100,27 @@ def make_monitor(ctx):
 
 
 def totals_vs_model(ctx, c):
+    """the "Total:" line against `Model/Whole.wholeTotals` (parent and children composed in Lean); the harness's own
+    composition of the per-process answers must agree with it"""
     parsed = worlds.parse_output(c.obs.stdout)
     if parsed["total"] is None:
         return
+    q = dict(worlds.model_query(c.world, c.opts, c.groups, import_errors=c.import_errors), op="whole", lost=[])
+    ans = ctx.driver.batch([q])[0]
+    if "error" in ans:
+        ctx.drift("runner.totals", "driver error %s" % ans["error"], c.replay_obj())
+        return
+    lean_totals = tuple(ans["totals"])
     ran, nf, ne, sk, failed = cw.model_totals(c)
-    if parsed["total"] != (ran, nf, ne, sk):
-        ctx.drift("runner.totals", "Total line %r, model %r (opts %r)" % (parsed["total"], (ran, nf, ne, sk), c.opts),
+    if lean_totals != (ran, nf, ne, sk) or bool(ans["failed"]) != bool(failed):
+        ctx.drift("runner.whole", "Model/Whole gives totals %r failed=%r, the composition of the per-process models %r failed=%r"
+                  % (lean_totals, ans["failed"], (ran, nf, ne, sk), failed), c.replay_obj())
+        return
+    if parsed["total"] != lean_totals:
+        ctx.drift("runner.totals", "Total line %r, model %r (opts %r)" % (parsed["total"], lean_totals, c.opts),
                   c.replay_obj())
+    elif (c.obs.exit == 1) != bool(ans["failed"]) and c.obs.exit in (0, 1):
+        ctx.drift("runner.verdict", "exit status %r, Model/Whole says failed=%r" % (c.obs.exit, ans["failed"]), c.replay_obj())
 
 
 def make_flaky(rng, w, o):
